@@ -1,1 +1,2 @@
 import CoapVerif.Props.C19
+import CoapVerif.Props.C20
